@@ -537,8 +537,12 @@ pub fn observe(args: &[String]) {
     let out = arg_value(args, "--out").expect("--out");
     let mut w = NdjsonOut::create(&out);
     for (i, c) in cases.iter().enumerate() {
+        watch(|| json!({"case": c}).to_string());
         let r = match guarded(|| exec(c)) {
-            Outcome::Ok(r) => r,
+            Outcome::Ok(r) => {
+                unwatch();
+                r
+            }
             Outcome::Panic(m) => {
                 eprintln!("harness error: {} in {}", m, c);
                 std::process::exit(2);
@@ -607,6 +611,8 @@ pub fn families(args: &[String]) {
         }
     };
     for f in &cases {
+        // the deadline is per family (millions of cases per second): a call that does not return stops the run
+        watch(|| json!({"family": f}).to_string());
         match gs(f, "op") {
             "family_symbol" => {
                 let ty = gs(f, "ty");
@@ -739,6 +745,7 @@ pub fn families(args: &[String]) {
             }
         }
     }
+    unwatch();
     w.finish();
     println!("{}", json!({"cases": total, "classes": classes, "families": cases.len(), "samples": samples}));
 }
